@@ -8,7 +8,7 @@ from typing import Dict, List, Optional, Tuple
 from sa.canon import canon
 from sa.index import AnalysisError
 from sa.report import Ctx
-from sa.sym import callkw, FALSE, NONE, NOT, Summary, bind_args, conjuncts, show, subst, walk
+from sa.sym import PINNED, callkw, FALSE, NONE, NOT, Summary, bind_args, conjuncts, show, subst, walk
 
 TASKS = "soundevent.evaluation.tasks"
 MET = "soundevent.evaluation.metrics"
@@ -269,6 +269,62 @@ class C09:
                             "unlabelled items must be left out of mean average precision by masking BOTH arrays with the same "
                             f"isnan(y_true) mask on every path (truth masks: {worst[1]}, score masks: {worst[2]} when {when})", s.node.lineno)
 
+    # ------------------------------------------------------------------ R09.6
+    def lockstep(self):
+        """The per-item results (Match / ClipEvaluation objects) and the truth / score rows the run-level metrics are computed
+        from are accumulated side by side: in every function of the task package, the lists that make up its result must
+        receive their entries under exactly the same conditions, in the same loops.  A row added without its item (or an
+        item without its row) shifts every later row against the items and changes what the metrics are computed over."""
+        ctx = self.ctx
+        mods = sorted(mn for mn in ctx.index.modules if mn.startswith(TASKS + "."))
+        for modname in mods:
+            m = ctx.index.module(modname)
+            for name, defs in m.defs.items():
+                d = defs[-1]
+                if not isinstance(d, ast.FunctionDef):
+                    continue
+                if name not in PINNED.get(modname, ()):
+                    continue  # a helper introduced later: its code is seen inlined in the functions that use it
+                s = ctx.summ.of_node(m, d, f"{modname}:{name}")
+                muts = {}
+                for e in s.calls:
+                    f = e.term[1]
+                    if f[0] == "attr" and f[2] in ("append", "extend") and f[1][0] == "alloc" and f[1][1] == "list" and e.loops:
+                        muts.setdefault(f[1], []).append(e)
+                def direct(t, acc):
+                    """sub-terms that are part of the returned structure itself (not what a comprehension inside it iterates)"""
+                    if not isinstance(t, tuple) or not t:
+                        return
+                    acc.add(t)
+                    if isinstance(t[0], str) and t[0] == "comp":
+                        return
+                    for x in t:
+                        if isinstance(x, tuple):
+                            direct(x, acc)
+                rsub = set()
+                for r in s.raw_returns:
+                    direct(r.term, rsub)
+                result_allocs = {x for x in rsub if x[0] == "alloc"} | {a for a, v in s.alloc_comps.items() if v in rsub}
+                group = {a: es for a, es in muts.items() if a in result_allocs}
+                if len(group) < 2:
+                    continue
+                site = f"{m.relpath}:{s.node.lineno} {name}"
+                sig = {a: sorted((e.loops, repr(canon(e.live))) for e in es) for a, es in group.items()}
+                ref_a = max(sig, key=lambda a: len(sig[a]))
+                bad = False
+                for a, sg in sig.items():
+                    if sg != sig[ref_a]:
+                        bad = True
+                        extra = [e for e in group[ref_a] if (e.loops, repr(canon(e.live))) not in sg]
+                        missing_here = extra[0] if extra else group[ref_a][0]
+                        ctx.bad("R09.6", m.relpath, name, f"{a[2].split('@')[0]} vs {ref_a[2].split('@')[0]}",
+                                f"{name}: `{ref_a[2].split('@')[0]}` receives an entry under `{show(missing_here.live)[:90]}` but "
+                                f"`{a[2].split('@')[0]}` does not receive one under the same condition: the truth / score rows no longer "
+                                f"correspond one-to-one to the evaluated items, so the metrics are computed over other items than "
+                                f"the ones reported", missing_here.lineno)
+                if not bad:
+                    ctx.ok("R09.6", site, f"{sorted(a[2].split('@')[0] for a in group)} grow in lock-step ({len(sig[ref_a])} site(s) each)")
+
     # ------------------------------------------------------------------ R09.4
     def means(self):
         ctx = self.ctx
@@ -441,12 +497,14 @@ def run(ctx: Ctx):
     ctx.rule("R09.3", "wrappers delegate to the named scikit-learn function with the specified 'none' handling", 13)
     ctx.rule("R09.4", "every mean over a selection is guarded against emptiness", 5)
     ctx.rule("R09.5", "tasks build metric lists from their own tables, at the right level, under their own name", 18)
+    ctx.rule("R09.6", "per-item results and truth / score rows are accumulated in lock-step", 6)
     c = C09(ctx)
     c.tables()
     c.labels()
     c.wrappers()
     c.means()
     c.task_structure()
+    c.lockstep()
     # "survives an AOEF save/load with every metric intact": the field-carry / elision rules of C01 on the three
     # metric-carrying adapters (anchored files io/aoef/evaluation.py, clip_evaluation.py, match.py)
     from .c01 import C01
